@@ -710,7 +710,10 @@ class Emitter:
 
     def ret_expr(self, val, ty):
         if self.cfg.get("reader"):
-            return "(%s, %s)" % (val if val is not None else "()", self.cfg["reader"])
+            inner = val if val is not None else "()"
+            if self.selfmut:                                          # `&mut self` and a threaded stream / closure state
+                inner = self.self_value() if (ty == UNIT or val is None) else "(%s, %s)" % (val, self.self_value())
+            return "(%s, %s)" % (inner, self.cfg["reader"])
         if self.selfmut:
             if ty == UNIT or val is None:
                 return self.self_value()
@@ -2402,6 +2405,8 @@ def translate(src, cfg, calls, consts, structs):
     for mk, mv in cfg.get("macro_subst", {}).items():
         src = src.replace(mk, mv)                                 # the instance of a `macro_rules!` body at one type
     params_txt, ret_txt, body_txt = find_fn(src, cfg.get("impl"), cfg["fn"])
+    for a, b in cfg.get("pre_subst", []):
+        body_txt = body_txt.replace(a, b)                         # a uniform, purely textual renaming of a callee
     for pat, repl in cfg.get("source_subst", []):
         # a part of the body outside the translated subset (floating point) is replaced by a NAMED parameter; the pattern
         # must match exactly once, otherwise the function is not translated
@@ -2443,7 +2448,7 @@ def translate(src, cfg, calls, consts, structs):
             ty = alias(p.ty())
             ov = cfg.get("params", {}).get(name)
             if cfg.get("reader") == name:
-                binders.append("(%s : Elems)" % name)
+                binders.append("(%s : %s)" % (name, cfg.get("reader_ty", "Elems")))
             elif ov:
                 binders.append(ov[0]); em.env[name] = (ov[2], ov[1])
             else:
@@ -2464,7 +2469,7 @@ def translate(src, cfg, calls, consts, structs):
     if em.selfmut:
         rty0 = cfg["self"]["lean"] if em.ret == UNIT else "(%s × %s)" % (rty0, cfg["self"]["lean"])
     if cfg.get("reader"):
-        rty0 = "(%s × Elems)" % rty0
+        rty0 = "(%s × %s)" % (rty0, cfg.get("reader_ty", "Elems"))
     cfg = dict(cfg, _rty=rty0)
     em.cfg = cfg
     em.alias = alias
@@ -2481,7 +2486,7 @@ def translate(src, cfg, calls, consts, structs):
     if em.selfmut:
         rty = cfg["self"]["lean"] if em.ret == UNIT else "(%s × %s)" % (rty, cfg["self"]["lean"])
     if cfg.get("reader"):
-        rty = "(%s × Elems)" % rty
+        rty = "(%s × %s)" % (rty, cfg.get("reader_ty", "Elems"))
     if mutargs:
         # a free function taking `&mut array`: its final value is the array
         rty = "(Array Word)" if em.ret == UNIT else "(%s × Array Word)" % rty
